@@ -593,7 +593,8 @@ class PendingAssign(PendingNode[Assign | AnnAssign]):
         return self.nsp.get_assign(target.id, value)
 
     def assign_subscript(self, target: Subscript, value: expr):
-        _slice = target.slice
+        # rewrite the names first: the call to slice() built below is not user code
+        _slice = expr_transf(self.nsp, target.slice)
         if isinstance(_slice, Slice):
             _slice = utils.convert_slice(_slice)
 
